@@ -281,3 +281,24 @@ def run(ctx):
             elif skips:
                 why_e = "an empty string is skipped only depending on its position (name slot)"
         r7.check(ok_e, "empty-value-keeps-its-place", why_e, "%s: `options=''` (or any empty value) shifts the pairing of every parameter after it - the startup is refused or the names and values are mixed up" % why_e)
+
+    # ---------------- R8 `the connection's value equals the client's` is decided by byte equality (round 6)
+    r8 = ctx.rule("C12-R8", "whether a tracked parameter has to be SET again on a server connection is decided by exact equality of the connection's recorded value and the client's: "
+                  "the only comparison in ServerParameters::compare_params that guards the insertion into the diff is ==/!= on the two strings (application_name, DateStyle, TimeZone are case-sensitive or server-normalised - "
+                  "a looser comparison leaves a client running under another client's value)", floor=1)
+    cp = ctx.body("pgcat::server::ServerParameters::compare_params", r8)
+    if cp:
+        ins = cp.calls("re:^std::collections::hash::map::HashMap::.*insert$")
+        if not ins:
+            r8.missing("insert into the diff map in compare_params")
+        for k_ in ins:
+            cmpf = set()
+            for sb, t in cp.control_deps(k_.block, depth=4):
+                for o in origins(cp, cp.blocks[sb]["term"]["op"], taint=True):
+                    if o.kind == "call" and not re.search(r"HashMap::get$|Iterator>::next$|into_iter$|::iter$|Deref>::deref$", o.call.name):
+                        cmpf.add(strip_generics(o.call.name))
+            exact = {n_ for n_ in cmpf if re.search(r"PartialEq.*::(eq|ne)$", n_)}
+            loose = sorted(n_.split("::")[-1] for n_ in cmpf - exact)
+            r8.check(bool(exact) and not loose, "diff-by-exact-equality", "a parameter enters the diff iff the two values differ (%s)" % sorted(n_.split("::")[-1] for n_ in exact),
+                     "the insertion into the diff is guarded by %s: values that differ only in what that ignores (letter case: application_name `billing` / `Billing`) are taken for equal, no SET is sent, "
+                     "and the client's statements run under the previous client's value" % (loose or "no equality test"), k_.where())
